@@ -513,6 +513,12 @@ impl Report {
             let _ = std::fs::write(&path, serde_json::to_string_pretty(&doc).unwrap());
             println!("VIOLATION property={} replay={} signature={}", v.prop, path.display(), v.signature);
         }
+        // Sanitizer slices (valgrind etc.) run a tiny workload: they must neither overwrite the
+        // evidence of the real run nor be judged by its floors.
+        let slice_mode = std::env::var("VERIF_SANITIZER_SLICE").is_ok();
+        if slice_mode {
+            self.spec.floors.clear();
+        }
         // floors → inconclusive
         let mut inconclusive: Vec<String> = vec![];
         if self.counter("harness_panics") > 0 {
@@ -524,7 +530,7 @@ impl Report {
                 inconclusive.push(format!("{c}={have} below floor {min}"));
             }
         }
-        if self.evaluations == 0 || self.distinct.len() < 2 {
+        if (self.evaluations == 0 || self.distinct.len() < 2) && !slice_mode {
             inconclusive.push("observed fewer than 2 distinct non-trivial cases".into());
         }
         let mut coverage = Map::new();
@@ -572,8 +578,11 @@ impl Report {
         let evdir = PathBuf::from(VERIF_ROOT).join("evidence");
         let _ = std::fs::create_dir_all(&evdir);
         let evpath = evdir.join(format!("{prop}.json"));
-        if self.args.replay.is_none() {
+        if self.args.replay.is_none() && !slice_mode {
             std::fs::write(&evpath, serde_json::to_string_pretty(&ev).unwrap()).expect("write evidence");
+        }
+        if slice_mode {
+            println!("SANITIZER-SLICE-DONE property={prop} evaluations={}", self.evaluations);
         }
         println!(
             "SUMMARY property={prop} tier={} seed={} verdict={verdict} evaluations={} distinct_nontrivial={} wall_s={:.1}",
